@@ -3,6 +3,7 @@ operator objects with the Lean Model (OFV.Model.Program), plus the Spec oracle
 (OFV.Spec.Expr) evaluated on the implementation's own values."""
 import copy
 import itertools
+from fractions import Fraction
 
 from common import (Stream, budget, enc_op, enc_term, canon_op_json, to_gq, from_gq, dyadic,
                     rng_for, import_openfermion, show)
@@ -47,7 +48,20 @@ def rand_scalar(rng, for_div=False):
         if r < 0.4:
             return int(base) if float(base).is_integer() else base
         return float(base)
-    return dyadic(rng, max_num=4, max_pow=2)
+    c = dyadic(rng, max_num=4, max_pow=2)
+    u = rng.random()
+    if u < 0.08:
+        # band between the deletion tolerance (1e-8) and "small": 2^-14 .. 2^-22, still dyadic
+        c = c * 2.0 ** -rng.randint(14, 22)
+    if u > 0.85:
+        # numpy scalar coefficients: only float64 / complex128 are admissible (subclasses of
+        # float / complex; the other numpy scalar types are rejected by the unmodified library)
+        import numpy
+        if isinstance(c, complex):
+            c = numpy.complex128(c)
+        elif isinstance(c, float):
+            c = numpy.float64(c)
+    return c
 
 
 def gen_program(rng, cls, nvars, nstmts, max_len, max_index):
@@ -188,7 +202,7 @@ def big(jsnap):
         if len(v) > 400:
             return True
         for _, c in v:
-            if max(abs(c[0]).bit_length(), c[1].bit_length(), abs(c[2]).bit_length(), c[3].bit_length()) > 40:
+            if max(abs(c[0]).bit_length(), c[1].bit_length(), abs(c[2]).bit_length(), c[3].bit_length()) > 50:
                 return True
     return False
 
@@ -216,6 +230,26 @@ def leaf(jop):
     return ['leaf', jop]
 
 
+TOL2 = Fraction(1, 10 ** 16)    # EQ_TOLERANCE ** 2 (1e-8 is a decade-exact bound for dyadic values)
+
+
+def out_of_exact_regime(cls, x, y, sign):
+    """`x += y` / `x -= y` of SymbolicOperators deletes sums with |v| < EQ_TOLERANCE: when such a
+    sum is non-zero the result is only 'equal up to tolerance', which the properties do not ask
+    us to decide — the Spec equation is not checked for that statement (counted)."""
+    if cls == 'majorana' or x is None or y is None:
+        return False
+    xd = {tuple(map(tuple, t)): from_gq(c) for t, c in x}
+    for t, c in y:
+        a = xd.get(tuple(map(tuple, t)), (Fraction(0), Fraction(0)))
+        b = from_gq(c)
+        v = (a[0] + sign * b[0], a[1] + sign * b[1])
+        n2 = v[0] * v[0] + v[1] * v[1]
+        if n2 != 0 and n2 < TOL2 * 4:
+            return True
+    return False
+
+
 def oracle_requests(cls, prog, outs, max_n, alg, d):
     """For each successful statement: the Spec equation it must satisfy, on the
     implementation's own values (before / after).  -> list of (stmt index, request)"""
@@ -239,6 +273,9 @@ def oracle_requests(cls, prog, outs, max_n, alg, d):
             rhs = leaf([[enc_term(cls, st[2]), to_gq(st[3])]])
         elif k == 'bin':
             _, x, o, y, z = st
+            if o in ('add', 'sub') and out_of_exact_regime(cls, val(before, y), val(before, z), 1 if o == 'add' else -1):
+                reqs.append((i, None))
+                continue
             lhs = leaf(snap[x])
             rhs = [o, leaf(val(before, y)), leaf(val(before, z))]
         elif k == 'sbin':
@@ -266,6 +303,9 @@ def oracle_requests(cls, prog, outs, max_n, alg, d):
             rhs = ['pow', leaf(val(before, st[2])), st[3]]
         elif k == 'iop':
             _, x, o, y = st
+            if o in ('add', 'sub') and out_of_exact_regime(cls, val(before, x), val(before, y), 1 if o == 'add' else -1):
+                reqs.append((i, None))
+                continue
             lhs = leaf(snap[x])
             rhs = [o, leaf(val(before, x)), leaf(val(before, y))]
         elif k == 'isop':
@@ -399,7 +439,10 @@ def check_programs(ctx, stream, cls, progs, nvars, oracle=True):
                 n, d = nb, 0
             if ok and not any(st[0] == 'pow' and st[3] > 2 for st in pre):
                 for i, r in oracle_requests(cls, pre, ipre, n, ALG[cls], d):
-                    oracle_batch.append((case, i, r))
+                    if r is None:
+                        stream.count('oracle:skipped-outside-exact-regime')
+                    else:
+                        oracle_batch.append((case, i, r))
             else:
                 stream.count('oracle:skipped-large')
     if oracle_batch:
